@@ -321,10 +321,46 @@ func (ex *Exec) appendOp(s *SliceV, more Value, st types.Type) Value {
 	return &SliceV{Cell: nc, Off: ts.BV(0, 64), Len: ts.BV(uint64(oldLen+n), 64), Cap: ts.BV(uint64(newCap), 64)}
 }
 
+// copyRawSym: copy between byte slices when a length is symbolic; bounded by the
+// smaller of the two backing objects (at most 1024 bytes).
+func (ex *Exec) copyRawSym(dst, s *SliceV) Value {
+	ts := ex.ts
+	bound := dst.Cell.RawLen
+	if s.Cell.RawLen < bound {
+		bound = s.Cell.RawLen
+	}
+	if dst.Len.IsConst() && int(dst.Len.Val) < bound {
+		bound = int(dst.Len.Val)
+	}
+	if s.Len.IsConst() && int(s.Len.Val) < bound {
+		bound = int(s.Len.Val)
+	}
+	if bound > 1024 {
+		ex.unsupported("copy with symbolic length over more than 1024 bytes")
+	}
+	k := ts.Ite(ts.Ult(dst.Len, s.Len), dst.Len, s.Len)
+	vals := make([]*Term, bound)
+	for i := 0; i < bound; i++ {
+		vals[i] = ts.Select(s.Cell.RawArr, ex.off32(ts.Add(s.Off, ts.BV(uint64(i), 64))))
+	}
+	arr := dst.Cell.RawArr
+	for i := 0; i < bound; i++ {
+		idx := ex.off32(ts.Add(dst.Off, ts.BV(uint64(i), 64)))
+		old := ts.Select(dst.Cell.RawArr, idx)
+		arr = ts.Store(arr, idx, ts.Ite(ts.Ult(ts.BV(uint64(i), 64), k), vals[i], old))
+	}
+	ex.noteWrite(dst.Cell)
+	dst.Cell.RawArr = arr
+	return k
+}
+
 func (ex *Exec) copyOp(dst *SliceV, src Value) Value {
 	ts := ex.ts
 	if dst.Cell == nil {
 		return ts.BV(0, 64)
+	}
+	if s, ok := src.(*SliceV); ok && s.Cell != nil && dst.Cell.Raw && s.Cell.Raw && (!dst.Len.IsConst() || !s.Len.IsConst()) {
+		return ex.copyRawSym(dst, s)
 	}
 	dn := ex.concInt(dst.Len, "copy dst len")
 	switch s := src.(type) {
